@@ -30,6 +30,8 @@ type simTransport struct {
 	delay    time.Duration
 	// dupPUT delivers every PUT twice to the handler (duplicate delivery)
 	dupPUT bool
+	// status and body length of the last response the real handler produced
+	lastStatus, lastBodyLen int
 }
 
 type shortBody struct {
@@ -75,6 +77,7 @@ func (t *simTransport) RoundTrip(req *http.Request) (*http.Response, error) {
 		}
 		res := rec.Result()
 		res.Request = req
+		t.lastStatus, t.lastBodyLen = rec.Code, rec.Body.Len()
 		return res
 	}
 	switch sc.kind {
